@@ -23,7 +23,10 @@ RULE = ("compounds: Hypothesis draws a flat {atom: count} dict (1-8 distinct ato
         "equations evaluated by pbt/refcalc_neutron.py, all seven outputs at rel 1e-10 plus an absolute floor of "
         "1e-13 x operand scale (incoherent terms compared as sigma_i with floor 1e-13 x (sigma_s + 2 sigma_c scale)); "
         "non-trivial = >= 2 distinct atoms and (energy dependent atom with an ordinary one, or an ion/isotope, or a "
-        "vector wavelength, or natural_density); distinct by (compound, density, wavelength) arguments. "
+        "vector wavelength, or natural_density); distinct by (compound, density, wavelength) arguments. Each compound is "
+        "then evaluated again with the same wavelength/energy object at a second density and, for lists/arrays, again "
+        "after that object was overwritten in place with other generated wavelengths (every call judged by the "
+        "reference; arguments must not be modified by the library). "
         "sweeps: every atom with data x 6 wavelengths through atom.neutron.scattering/.sld and the one-atom "
         "compound; every tabulated atom at every node, every interval midpoint and beyond both ends; "
         "no-data: a generated compound plus one atom without b_c must give exactly (None, None, None).")
@@ -77,6 +80,48 @@ def check_compound(ctx, v):
         ng.check_shape("c03:neutron_sld", o, s, shape, case)
     ng.compare_outputs("c03:neutron_sld", dict(zip(OUTPUTS[:3], sld)), comp, rho, lams, case,
                        "edep" if edep else "ordinary", outputs=OUTPUTS[:3])
+    repeat_calls(ctx, v, case, comp, shape, wkw, edep)
+
+
+def repeat_calls(ctx, v, case, comp, shape, wkw, edep):
+    """The result of a call must not depend on the calls before it: the same compound and the SAME
+    wavelength/energy object again at another density, then once more after the caller modified
+    that list/array in place to other wavelengths.  Every call is judged by the reference."""
+    E = ng.env()
+    pt, np, R = E["pt"], E["np"], E["ref"]
+    if "rho2" not in v:
+        return
+    tag = "edep" if edep else "ordinary"
+    obj0 = ng.build_compound(v["comp"])[0]
+    how, arg = list(wkw.items())[0]
+    lams_now = ng.build_wavelength(v["wl"])[1]
+    rho2 = v["rho2"]
+    ctx.count("repeat:" + ("vector" if shape != () else "scalar"))
+    with unchanged("c03", case, compound=obj0 if isinstance(obj0, dict) else None, **wkw):
+        got = ng.flatten(pt.neutron_scattering(obj0, density=rho2, **wkw))
+    for o in OUTPUTS:
+        ng.check_shape("c03:repeat", o, got[o], shape, case)
+    ng.compare_outputs("c03:repeat:other-density", got, comp, rho2, lams_now, case, tag)
+    if shape == () or not v.get("lams2"):
+        return
+    # the caller reuses its list / array for other wavelengths
+    n = len(lams_now)
+    lams2 = [v["lams2"][i % len(v["lams2"])] for i in range(n)]
+    vals = [R.energy(l) for l in lams2] if how == "energy" else lams2
+    ref_l = [R.wavelength(e) for e in vals] if how == "energy" else lams2
+    if isinstance(arg, list):
+        arg[:] = vals
+    else:
+        arg.reshape(-1)[:] = vals
+    ctx.count("repeat:in-place-" + ("list" if isinstance(arg, list) else "array"))
+    with unchanged("c03", case, **wkw):
+        got = ng.flatten(pt.neutron_scattering(obj0, density=rho2, **wkw))
+    for o in OUTPUTS:
+        ng.check_shape("c03:repeat", o, got[o], shape, case)
+    ng.compare_outputs("c03:repeat:wavelengths-changed-in-place", got, comp, rho2, ref_l, case, tag)
+    with unchanged("c03", case, **wkw):
+        got = ng.flatten(pt.neutron_scattering(obj0, density=v["dens"][1], **wkw))
+    ng.compare_outputs("c03:repeat:wavelengths-changed-in-place", got, comp, v["dens"][1], ref_l, case, tag)
 
 
 def check_nodata(ctx, v):
@@ -178,7 +223,9 @@ def check_table(ctx, spec):
 # ----------------------------------------------------------------------
 def strat_compound(depth, forms=None):
     kw = {} if forms is None else {"forms": forms}
-    return st.fixed_dictionaries({"comp": ng.compound(depth), "dens": ng.density_arg(), "wl": ng.wavelength_arg(**kw)})
+    return st.fixed_dictionaries({"comp": ng.compound(depth), "dens": ng.density_arg(), "wl": ng.wavelength_arg(**kw),
+                                  "rho2": ng.density_value(),
+                                  "lams2": st.lists(ng.one_wavelength(), min_size=1, max_size=6)})
 
 
 def task_compounds(ctx, n, depth=2):
@@ -225,11 +272,11 @@ def task_sweep_tables(ctx):
 
 def tasks(tier):
     if tier == "quick":
-        return [("compounds-a", task_compounds, dict(n=800, depth=2)),
-                ("compounds-b", task_compounds, dict(n=800, depth=1)),
-                ("compounds-c", task_compounds, dict(n=800, depth=2)),
-                ("compounds-d", task_compounds, dict(n=800, depth=3)),
-                ("compounds-e", task_compounds, dict(n=800, depth=1)),
+        return [("compounds-a", task_compounds, dict(n=600, depth=2)),
+                ("compounds-b", task_compounds, dict(n=600, depth=1)),
+                ("compounds-c", task_compounds, dict(n=600, depth=2)),
+                ("compounds-d", task_compounds, dict(n=600, depth=3)),
+                ("compounds-e", task_compounds, dict(n=600, depth=1)),
                 ("nodata", task_nodata, dict(n=300)),
                 ("sweep-atoms-0", task_sweep_atoms, dict(part=0, parts=2)),
                 ("sweep-atoms-1", task_sweep_atoms, dict(part=1, parts=2)),
